@@ -773,6 +773,11 @@ class STensor:
         if dt.is_floating_point and self.dtype.is_floating_point and self.ndim > 0 and \
                 _FLOAT_WIDTH.get(dt.name, 32) < _FLOAT_WIDTH.get(self.dtype.name, 32):
             PRECISION_EVENTS.append((f"cast {self.dtype.name}->{dt.name}", dt.name))  # narrowing cast of a dimensioned tensor
+        elif dt.is_floating_point and self.dtype.is_floating_point and self.ndim > 0 and \
+                _FLOAT_WIDTH.get(dt.name, 32) > _FLOAT_WIDTH.get(self.dtype.name, 32) and \
+                any(not FACTS.is_integral(to_rat(v)) for v in self.flat()):
+            # widening cast of a dimensioned tensor with non-integer entries: the values were computed (and rounded) in the narrower type
+            WIDENING_EVENTS.append((f"{self.dtype.name} values cast up ({self.dtype.name}->{dt.name})", dt.name))
         if not dt.is_floating_point and self.dtype.is_floating_point:
             vals = []
             for v in self.flat():
@@ -1391,6 +1396,7 @@ _FLOAT_WIDTH = {"float16": 16, "bfloat16": 16, "float32": 32, "float64": 64}
 GRAPH_EVENTS: List[Tuple[str, int]] = []  # (blocker, id of the operand's storage): detach() / .data taken of a tensor while an obligation ran
 ROUND_EVENTS: List[Any] = []  # decimals of every round-to-decimals the library applied while an obligation ran (values stay exact, see ROUND_EXACT)
 ROUND_EXACT = [0]  # > 0 while deepali.core.math.round_decimals is interpreted: torch.round is then the identity on values (fresh tensor or out=)
+WIDENING_EVENTS: List[Tuple[str, str]] = []  # a dimensioned narrower-float tensor with non-integer entries cast to a wider float type (consulted by T4.dtype)
 PRECISION_EVENTS: List[Tuple[str, str]] = []  # (narrow, wide): a tensor computed in a narrower float type entered wider arithmetic
 
 
